@@ -1186,6 +1186,127 @@ let run_llpath (x : sexp) : string =
       "path=" ^ op_show (OutPath.ll_path d m) ^ " pn=" ^ (if OutPath.is_pn_module m then "true" else "false")
   | _ -> failwith "llpath"
 
+(* ==== C07 / C02 / C01 Autoderef: value_type.rs predicates and the typer's autoderef ================
+   types in the syntax of the harness's `typed` / `vtpred` streams:
+     ty ::= (prim K) | (arr ty LEN) | (arrn ty N) | (slice ty) | (sliceptr ty) | (endless ty) | (arraylike ty)
+          | (struct N) | (word N SIZE) | (unresolved) | (unresolved N) | (ptr ty) | (view ty)
+   stream `vtpred`, payload (pair ty ty): the public predicates on (a, b), as the harness prints them
+   stream `autoderef`, payload (ad BASE (steps STEP ..) AD CTX (members (N ty) ..)):  STEP ::= e | (m N);  CTX ::= ty | none *)
+module AD = Autoderef
+let ad_prim (k : string) : TL.prim =
+  match int_of_string k with
+  | 0 -> TL.KVoid | 1 -> TL.KInt8 | 2 -> TL.KInt16 | 3 -> TL.KInt32 | 4 -> TL.KInt64 | 5 -> TL.KInt128 | 6 -> TL.KUint8
+  | 7 -> TL.KUint16 | 8 -> TL.KUint32 | 9 -> TL.KUint64 | 10 -> TL.KUint128 | 11 -> TL.KUsize | 12 -> TL.KChar8 | 13 -> TL.KBool
+  | _ -> failwith "autoderef: prim"
+let rec ad_vt (x : sexp) : TL.vty =
+  match x with
+  | L [A "prim"; A k] -> TL.VPrim (ad_prim k)
+  | L [A "arr"; t; A n] -> TL.VArray (ad_vt t, n_of_string n)
+  | L [A "arrn"; t; A c] -> TL.VArrayNamed (ad_vt t, n_of_string c)
+  | L [A "slice"; t] -> TL.VSlice (ad_vt t)
+  | L [A "sliceptr"; t] -> TL.VSlicePointer (ad_vt t)
+  | L [A "endless"; t] -> TL.VEndless (ad_vt t)
+  | L [A "arraylike"; t] -> TL.VArraylike (ad_vt t)
+  | L [A "struct"; A n] -> TL.VStruct (n_of_string n)
+  | L [A "word"; A n; A b] -> TL.VWord (n_of_string n, n_of_string b)
+  | L [A "unresolved"] -> TL.VUnresolved None
+  | L [A "unresolved"; A n] -> TL.VUnresolved (Some (n_of_string n))
+  | L [A "ptr"; t] -> TL.VPointer (ad_vt t)
+  | L [A "view"; t] -> TL.VView (ad_vt t)
+  | _ -> failwith "autoderef: type"
+let rec ad_show_vt (t : TL.vty) : string =
+  let prim_index = function
+    | TL.KVoid -> 0 | TL.KInt8 -> 1 | TL.KInt16 -> 2 | TL.KInt32 -> 3 | TL.KInt64 -> 4 | TL.KInt128 -> 5 | TL.KUint8 -> 6
+    | TL.KUint16 -> 7 | TL.KUint32 -> 8 | TL.KUint64 -> 9 | TL.KUint128 -> 10 | TL.KUsize -> 11 | TL.KChar8 -> 12 | TL.KBool -> 13 in
+  match t with
+  | TL.VPrim k -> Printf.sprintf "(prim %d)" (prim_index k)
+  | TL.VArray (e, n) -> Printf.sprintf "(arr %s %s)" (ad_show_vt e) (string_of_n n)
+  | TL.VArrayNamed (e, c) -> Printf.sprintf "(arrn %s %s)" (ad_show_vt e) (string_of_n c)
+  | TL.VSlice e -> "(slice " ^ ad_show_vt e ^ ")" | TL.VSlicePointer e -> "(sliceptr " ^ ad_show_vt e ^ ")"
+  | TL.VEndless e -> "(endless " ^ ad_show_vt e ^ ")" | TL.VArraylike e -> "(arraylike " ^ ad_show_vt e ^ ")"
+  | TL.VStruct n -> "(struct " ^ string_of_n n ^ ")" | TL.VWord (n, b) -> "(word " ^ string_of_n n ^ " " ^ string_of_n b ^ ")"
+  | TL.VUnresolved None -> "(unresolved)" | TL.VUnresolved (Some n) -> "(unresolved " ^ string_of_n n ^ ")"
+  | TL.VPointer d -> "(ptr " ^ ad_show_vt d ^ ")" | TL.VView d -> "(view " ^ ad_show_vt d ^ ")"
+let run_vtpred (x : sexp) : string =
+  match x with
+  | L [A "pair"; a; b] ->
+      let (a, b) = (ad_vt a, ad_vt b) in
+      let f v = if v then "1" else "0" in
+      (match AD.pred_table a b with
+       | [d; c; co; ca; au; wfa; _] ->
+           String.concat " " [f d; f c; f co; f ca; f au; f wfa; f (TL.is_wellformed b); string_of_n (AD.pointer_depth a); f (AD.is_slice_pointer a)]
+       | _ -> failwith "vtpred: table")
+  | _ -> failwith "vtpred"
+let ad_show_tstep = function
+  | AD.TElement _ -> "elem" | AD.TMember m -> "(mem " ^ string_of_n m ^ ")" | AD.TAutoderef -> "autoderef" | AD.TAutoview -> "autoview"
+  | AD.TAutodesliceByView -> "deslice-view" | AD.TAutodesliceByPointer -> "deslice-ptr"
+let run_autoderef (x : sexp) : string =
+  match x with
+  | L [A "ad"; base; L (A "steps" :: steps); A ad; ctx; L (A "members" :: ms)] ->
+      let members = List.map (function L [A n; t] -> (n_of_string n, ad_vt t) | _ -> failwith "autoderef: member") ms in
+      let mt (m : coq_N) = try Some (List.assoc m members) with Not_found -> None in
+      let steps = List.map (function A "e" -> AD.AElement None | L [A "m"; A n] -> AD.AMember (n_of_string n) | _ -> failwith "autoderef: step") steps in
+      let ctx = (match ctx with A "none" -> None | t -> Some (ad_vt t)) in
+      (match AD.analyze_deref mt (ad_vt base) steps (n_of_string ad) ctx with
+       | None -> "untyped"
+       | Some (AD.ADPanic s) -> "panic " ^ string_of_n s
+       | Some (AD.ADError c) -> "error " ^ string_of_n c
+       | Some (AD.ADOk (taken, ta, dt, co)) ->
+           (* the wrapper around call arguments (typer.rs analyze_hinted_arguments) adds a coercion of its own *)
+           let argco = (match co, ctx with
+                        | None, Some pt -> (match AD.argument_coercion dt pt with Some c -> ad_show_vt c | None -> "none")
+                        | _, _ -> "none") in
+           Printf.sprintf "ok steps=[%s] addr=%d type=%s coerce=%s argcoerce=%s" (String.concat " " (List.map ad_show_tstep taken)) (if ta then 1 else 0)
+             (ad_show_vt dt) (match co with None -> "none" | Some c -> ad_show_vt c) argco)
+  | _ -> failwith "autoderef"
+
+(* ==== C08 CallFrame: one activation on memory ====================================================
+   payload (frame (bindings B ..) (inits I ..) (body S ..) (probe (LO HI) ..) FORCE)
+     B ::= (value PTY Z) | (view A PTY) | (slice A N PTY) | (pointer A PTY) | (slicepointer A N PTY) | (local A PTY) | (const A PTY)
+     I ::= (A PTY VALUE)    VALUE ::= Z | (VALUE ..)      (arrays and structures alike; a pointer cell holds an address)
+     S ::= (set REF Z) | (copy REF REF) | (setaddr REF REF)     REF ::= (ref BINDING-INDEX AD STEP ..)   STEP as in `memlower`
+   answer: rejected [codes] | undefined | ran changed=[..] outside=[..] outside-strict=[..] *)
+module CF = CallFrame
+let rec cf_value (t : MemLower.pty) (x : sexp) : MemLower.value =
+  match t, x with
+  | MemLower.PArr (_, e), L xs -> MemLower.VArr (List.map (cf_value e) xs)
+  | MemLower.PStruct ms, L xs -> MemLower.VStruct (List.map2 cf_value ms xs)
+  | _, A z -> MemLower.VS (z_of_string z)
+  | _ -> failwith "callframe: value"
+let cf_ref (x : sexp) : CF.reference =
+  match x with
+  | L (A "ref" :: A b :: A ad :: steps) ->
+      { CF.r_base = nat_of_int (int_of_string b); CF.r_path = List.map ml_step steps; CF.r_ad = nat_of_int (int_of_string ad) }
+  | _ -> failwith "callframe: ref"
+let run_callframe (x : sexp) : string =
+  match x with
+  | L [A "frame"; L (A "bindings" :: bs); L (A "inits" :: is); L (A "body" :: ss); L (A "probe" :: ps); A force] ->
+      let z = z_of_string in
+      let binding = function
+        | L [A "value"; t; A v] -> CF.arg_value (ml_pty t) (z v)
+        | L [A "view"; A a; t] -> CF.arg_view (z a) (ml_pty t)
+        | L [A "slice"; A a; A n; t] -> CF.arg_slice (z a) (z n) (ml_pty t)
+        | L [A "pointer"; A a; t] -> CF.arg_pointer (z a) (ml_pty t)
+        | L [A "slicepointer"; A a; A n; t] -> CF.arg_slice_pointer (z a) (z n) (ml_pty t)
+        | L [A "local"; A a; t] -> CF.local_var (z a) (ml_pty t)
+        | L [A "const"; A a; t] -> CF.constant (z a) (ml_pty t)
+        | _ -> failwith "callframe: binding" in
+      let init = function
+        | L [A a; t; v] -> let t = ml_pty t in ((z a, MemLower.erase (MemLower.gen t)), cf_value t v)
+        | _ -> failwith "callframe: init" in
+      let stmt = function
+        | L [A "set"; r; A v] -> CF.SSetConst (cf_ref r, z v)
+        | L [A "copy"; d; s_] -> CF.SCopy (cf_ref d, cf_ref s_)
+        | L [A "setaddr"; d; s_] -> CF.SSetAddr (cf_ref d, cf_ref s_)
+        | _ -> failwith "callframe: stmt" in
+      let probe = function L [A lo; A hi] -> (z lo, z hi) | _ -> failwith "callframe: probe" in
+      let zs l = "[" ^ String.concat "," (List.map string_of_z l) ^ "]" in
+      (match CF.run_frame_case (List.map binding bs) (List.map init is) (List.map stmt ss) (List.map probe ps) (force = "1") with
+       | CF.CaseRejected codes -> "rejected [" ^ String.concat "," (List.map string_of_n codes) ^ "]"
+       | CF.CaseUndefined -> "undefined"
+       | CF.CaseRan (ch, out, strict) -> Printf.sprintf "ran changed=%s outside=%s outside-strict=%s" (zs ch) (zs out) (zs strict))
+  | _ -> failwith "callframe"
+
 (* ==== C13 Loc: Location::combined_with and comparison_key ===================================== *)
 let run_loc (x : sexp) : string =
   match x with
@@ -1204,6 +1325,9 @@ let dispatch (stream : string) (x : sexp) : string =
   | "lintwalk" -> run_lintwalk x
   | "escape" -> run_escape x
   | "llpath" -> run_llpath x
+  | "vtpred" -> run_vtpred x
+  | "autoderef" -> run_autoderef x
+  | "callframe" -> run_callframe x
   | "loc" -> run_loc x
   | "memlower" -> run_memlower x
   | "vars" -> run_vars x
